@@ -681,3 +681,18 @@ mod tests {
         assert_eq!(src_box, dst_box);
     }
 }
+
+#[cfg(mp4_verif)]
+pub fn verif_read_desc<R: Read>(reader: &mut R) -> Result<(u8, u32)> {
+    read_desc(reader)
+}
+
+#[cfg(mp4_verif)]
+pub fn verif_size_of_length(size: u32) -> u32 {
+    size_of_length(size)
+}
+
+#[cfg(mp4_verif)]
+pub fn verif_write_desc<W: Write>(writer: &mut W, tag: u8, size: u32) -> Result<u64> {
+    write_desc(writer, tag, size)
+}
